@@ -56,9 +56,9 @@ impl<T: Elem> VecCall<T> {
             Kind::Reduce1 => {
                 self.b.clear();
                 self.res_len = 0;
-            },
+            }
             Kind::Reduce2 => self.res_len = 0,
-            Kind::Map2 => {},
+            Kind::Map2 => {}
             Kind::Map1V => self.b.clear(),
         }
         self
@@ -109,11 +109,19 @@ pub struct Arenas {
 
 impl Arenas {
     pub fn new(max_bytes: usize) -> Arenas {
-        Arenas { a: Arena::new(max_bytes), b: Arena::new(max_bytes), r: Arena::new(max_bytes), window: 1024 }
+        Arenas {
+            a: Arena::new(max_bytes),
+            b: Arena::new(max_bytes),
+            r: Arena::new(max_bytes),
+            window: 1024,
+        }
     }
     pub fn ensure(&mut self, max_bytes: usize) {
         if self.a.capacity() < max_bytes {
-            *self = Arenas { window: self.window, ..Arenas::new(max_bytes * 2) };
+            *self = Arenas {
+                window: self.window,
+                ..Arenas::new(max_bytes * 2)
+            };
         }
     }
 }
@@ -165,9 +173,7 @@ impl<T: Elem> VecCall<T> {
                 }),
             };
             let out = match res {
-                Ok(Out::Vector(_)) => {
-                    Out::Vector(std::slice::from_raw_parts(pr as *const T, lr).to_vec())
-                },
+                Ok(Out::Vector(_)) => Out::Vector(std::slice::from_raw_parts(pr as *const T, lr).to_vec()),
                 Ok(o) => o,
                 Err(msg) => Out::Panic(msg),
             };
@@ -187,7 +193,11 @@ impl<T: Elem> VecCall<T> {
             if let Some(i) = (0..lb).find(|&i| nb[i].to_bits() != self.b[i].to_bits()) {
                 input_changed = Some(format!("b[{i}] changed {} -> {}", hexs(self.b[i]), hexs(nb[i])));
             }
-            Exec { out, canary, input_changed }
+            Exec {
+                out,
+                canary,
+                input_changed,
+            }
         }
     }
 }
@@ -249,8 +259,13 @@ impl<T: Elem> Case for VecCall<T> {
             Kind::Reduce1 => format!("{n}(a[{}])", self.a.len()),
             Kind::Reduce2 => format!("{n}(a[{}], b[{}])", self.a.len(), self.b.len()),
             Kind::Map2 => {
-                format!("{n}(a[{}], b[{}], result[{}])", self.a.len(), self.b.len(), self.res_len)
-            },
+                format!(
+                    "{n}(a[{}], b[{}], result[{}])",
+                    self.a.len(),
+                    self.b.len(),
+                    self.res_len
+                )
+            }
             Kind::Map1V => format!(
                 "{n}(value={}, a[{}], result[{}])",
                 self.value.show(),
@@ -288,7 +303,10 @@ impl<T: Elem> Case for VecCall<T> {
         }
         if self.uses_result() {
             f.push(("result_len", self.res_len.to_string()));
-            f.push(("result_prefill", format!("\"{}\"", hexs(T::from_bits(self.prefill)))));
+            f.push((
+                "result_prefill",
+                format!("\"{}\"", hexs(T::from_bits(self.prefill))),
+            ));
         }
         f.push((
             "placement",
